@@ -35,6 +35,7 @@ RClose(a, b, tol) == CHOOSE s \in BOOLEAN : TRUE  \* |a - b| <= tol
 RIsNum(a)    == CHOOSE s \in BOOLEAN : TRUE   \* total: is this a finite number? ("NaN", "+Inf", records ... -> FALSE)
 RFloor(a)    == CHOOSE s \in Int : TRUE
 RCeil(a)     == CHOOSE s \in Int : TRUE
+RMulMod(a, b, n) == CHOOSE s \in Int : TRUE   \* (a * b) % n without 32-bit overflow
 RCosTurn(k, n) == CHOOSE s \in STRING : TRUE  \* cos(2 pi k / n)
 RSinTurn(k, n) == CHOOSE s \in STRING : TRUE  \* sin(2 pi k / n)
 RLongestRunLeq(m, r)   == CHOOSE s \in STRING : TRUE  \* P(longest run of ones in random m-bit block <= r)
